@@ -194,6 +194,76 @@ Theorem credentials_arrive_partial ctx err (auth : kind -> sc -> list bytes -> c
 Proof. intro H. exists p. split; [exact (transport_safe L p H)|reflexivity]. Qed.
 Print Assumptions credentials_arrive_partial.
 
+(* ---- the request on the wire (client encoder / server decoder with named places) ---- *)
+
+(* Fields set by the client that write ONE header all carrying the value v (alternative schemes
+   sharing Authorization or X-Auth, or a single field): every attribute the server reads from
+   that header - also one whose own field was left unset - is shown header_roundtrip of v, hence
+   v itself when v is non-empty without space/tab. Basic must not own that header. *)
+Theorem wire_shared_header_delivers b basic fs w n v :
+  encode_wire b basic fs = Some w -> (basic = None \/ n <> authorization) ->
+  (forall f, In f fs -> f_place f = PHeader n -> f_val f = v) ->
+  (exists f, In f fs /\ f_place f = PHeader n) ->
+  decode_place (PHeader n) true w = header_roundtrip (b && String.eqb n authorization) v.
+Proof. exact (decode_header_group b basic fs w n v). Qed.
+Print Assumptions wire_shared_header_delivers.
+
+Theorem wire_shared_header_delivers_partial b basic fs w n v :
+  encode_wire b basic fs = Some w -> (basic = None \/ n <> authorization) ->
+  (forall f, In f fs -> f_place f = PHeader n -> f_val f = v) ->
+  (exists f, In f fs /\ f_place f = PHeader n) ->
+  v <> [] -> (forall x, In x v -> is_ows x = false) ->
+  decode_place (PHeader n) true w = v.
+Proof.
+  intros He Hb Hall Hex Hne Hows. rewrite (decode_header_group b basic fs w n v He Hb Hall Hex).
+  exact (header_roundtrip_safe _ v (conj Hne Hows)).
+Qed.
+Print Assumptions wire_shared_header_delivers_partial.
+
+(* query-string and body credentials arrive exactly, whatever they contain *)
+Theorem wire_query_delivers b basic fs w n v :
+  encode_wire b basic fs = Some w ->
+  (forall f, In f fs -> f_place f = PQuery n -> f_val f = v) -> (exists f, In f fs /\ f_place f = PQuery n) ->
+  decode_place (PQuery n) false w = v.
+Proof. exact (decode_query_value b basic fs w n v). Qed.
+Print Assumptions wire_query_delivers.
+
+Theorem wire_body_delivers b basic fs w n v :
+  encode_wire b basic fs = Some w ->
+  (forall f, In f fs -> f_place f = PBody n -> f_val f = v) -> (exists f, In f fs /\ f_place f = PBody n) ->
+  decode_place (PBody n) false w = v.
+Proof. exact (decode_body_value b basic fs w n v). Qed.
+Print Assumptions wire_body_delivers.
+
+(* Basic: refused exactly when the user name holds ':'; otherwise r.BasicAuth on the request the
+   client built returns the pair given to the client, whatever else the payload carries *)
+Theorem wire_basic_roundtrip b u pw fs :
+  (has_colon u = true /\ encode_wire b (Some (u, pw)) fs = None) \/
+  (has_colon u = false /\ exists w, encode_wire b (Some (u, pw)) fs = Some w /\ decode_basic w = Some (u, pw)).
+Proof. exact (wire_basic b u pw fs). Qed.
+Print Assumptions wire_basic_roundtrip.
+
+(* Every credential travels in its designed place and nowhere else: a header is written only
+   for a field designed for it (or Authorization by Basic), the query and the body hold exactly
+   the fields designed for them. *)
+Theorem wire_only_designed_places b basic fs w : encode_wire b basic fs = Some w ->
+  (forall n x, In (n, x) (w_hdr w) -> (exists f, In f fs /\ f_place f = PHeader n) \/ (n = authorization /\ basic <> None)) /\
+  (forall n x, In (n, x) (w_qry w) <-> exists f, In f fs /\ f_place f = PQuery n /\ x = f_val f) /\
+  (forall n x, In (n, x) (w_body w) <-> exists f, In f fs /\ f_place f = PBody n /\ x = f_val f).
+Proof. exact (wire_only_designed b basic fs w). Qed.
+Print Assumptions wire_only_designed_places.
+
+(* non-vacuity: JWT and OAuth2 tokens share the implicit Authorization header (only the OAuth2
+   field is set), an API key goes to the query: both header attributes are shown the token *)
+Example wire_example :
+  let fs := [ {| f_attr := AAToken; f_place := PHeader authorization; f_val := bytes_of_string "tok" |};
+              {| f_attr := AKey "key"; f_place := PQuery "k"; f_val := bytes_of_string "a b" |} ] in
+  exists w, encode_wire true None fs = Some w /\
+    get_last authorization (w_hdr w) = Some (bytes_of_string "Bearer tok") /\
+    decode_place (PHeader authorization) true w = bytes_of_string "tok" /\
+    decode_place (PQuery "k") false w = bytes_of_string "a b" /\ w_body w = [].
+Proof. eexists. split; [reflexivity|]. vm_compute. repeat split. Qed.
+
 (* non-vacuity: two alternative requirements, the first rejected by its second scheme,
    the second accepted; the trace is the short-circuit order and the method runs once *)
 Example chain_example :
